@@ -3,7 +3,7 @@ import hdrlib
 import sandbox
 
 # Whether the pinned tree carries the repaired property-size computation (finding F1).
-F1_FIXED = 0
+F1_FIXED = 1
 
 
 def _read_job(data):
